@@ -532,10 +532,13 @@ def run_item(ctx, item):
                 a_ = rng.randrange(0, len(on_) - 1)
                 b_ = rng.randrange(a_ + 1, min(len(on_), a_ + 5))
                 from partitura.directions import parse_direction
-                d_ = parse_direction(rng.choice(["cresc.", "dim.", "crescendo", "decresc."]))[0]
-                if isinstance(d_, S.DynamicLoudnessDirection):
+                # (loudness and tempo alike: cresc. - - -, rit. - - -, accel. - - -)
+                d_ = parse_direction(rng.choice(["cresc.", "dim.", "crescendo", "decresc.", "rit.", "accel.", "rall.", "ritardando"]))[0]
+                if isinstance(d_, S.DynamicDirection):
                     p_.add(d_, on_[a_], on_[b_])
                     ctx.extra["generated_dashes"] += 1
+                    if isinstance(d_, S.DynamicTempoDirection):
+                        ctx.extra["generated_tempo_dashes"] += 1
         if pitched and rng.random() < 0.2:
             # sustain pedal marks, within a measure or over several (non-overlapping, as on a staff)
             on_ = sorted({int(n.start.t) for n in pitched} | {int(n.end.t) for n in pitched})
